@@ -1,6 +1,8 @@
 """C01 — rolling moments and weighted averages equal from-scratch window evaluation."""
 CFG = dict(
     bins=["c01"],
+    src_tables=True,   # tools/gen_tables.py: min_periods shapes (Proofs/SrcTablesRoll.v) and the emit / EPS guards of the rolling closures (Proofs/SrcTablesAgg.v), regenerated from the Rust source on every run
+    src_tables_proofs=["Proofs/SrcTablesRoll.vo", "Proofs/SrcTablesAgg.vo"],
     imports=["Run.RunC01"],
     rule="series: exhaustive over the alphabet {-1, 0.5, 2, null} up to length 2 (thorough 4) + 250 (thorough 2500) "
          "structured random series of length 4..24 (48) of dyadic values k/4 (uniform / small alphabet with ties / monotone / "
